@@ -105,6 +105,36 @@ func OrdinalName(fn *ssa.Function) string {
 
 var fnNames, fnRoles sync.Map
 
+// KnownFuncs is the frozen list of function names (role-based) of the tree the tables were confirmed against; nil
+// disables the transparent-closure view.
+var KnownFuncs map[string]bool
+
+var (
+	transparentKids = map[*ssa.Function][]*ssa.Function{}
+	transparentSite = map[*ssa.Function]*ssa.Call{}
+)
+
+// IsTransparent reports whether fn is analysed as part of its enclosing function.
+func IsTransparent(fn *ssa.Function) bool { return fn != nil && transparentSite[fn] != nil }
+
+// TransparentCallee returns the transparent closure invoked by in, if any.
+func TransparentCallee(in ssa.Instruction) *ssa.Function {
+	call, ok := in.(*ssa.Call)
+	if !ok || call.Call.IsInvoke() {
+		return nil
+	}
+	v := call.Call.Value
+	if mc, isMC := v.(*ssa.MakeClosure); isMC {
+		v = mc.Fn
+	}
+	if fn, isF := v.(*ssa.Function); isF {
+		if fn = Canon(fn); transparentSite[fn] == call {
+			return fn
+		}
+	}
+	return nil
+}
+
 // ClosureRole is the role part of an anonymous function's name ("go", "defer", "ret", "Do", ...).
 func ClosureRole(fn *ssa.Function) string {
 	if fn == nil || fn.Parent() == nil {
@@ -232,13 +262,19 @@ func closureRole(par, fn *ssa.Function) string {
 	return role
 }
 
-// Load type-checks and builds SSA for the package in dir. overlay maps absolute
-// file names to replacement contents (used by the sensitivity harness).
-func Load(dir string, overlay map[string][]byte, goarch string) (*Prog, error) {
+// LoadEnv is the environment of every go/packages load (offline, module mode, optional GOARCH).
+func LoadEnv(goarch string) []string {
 	env := append(os.Environ(), "GOFLAGS=-mod=mod", "GOPROXY=off", "GOSUMDB=off", "GOTOOLCHAIN=local", "GOWORK=off")
 	if goarch != "" {
 		env = append(env, "GOARCH="+goarch, "CGO_ENABLED=0")
 	}
+	return env
+}
+
+// Load type-checks and builds SSA for the package in dir. overlay maps absolute
+// file names to replacement contents (used by the sensitivity harness).
+func Load(dir string, overlay map[string][]byte, goarch string) (*Prog, error) {
+	env := LoadEnv(goarch)
 	cfg := &packages.Config{
 		Mode:    packages.LoadAllSyntax,
 		Dir:     dir,
@@ -319,11 +355,138 @@ func Load(dir string, overlay map[string][]byte, goarch string) (*Prog, error) {
 			}
 		}
 	}
+	// transparent closures: immediately invoked function literals that did not exist when the tables were confirmed
+	// (typically produced by the un-extraction pre-pass). They are analysed as part of their enclosing function:
+	// same name, their instructions are found by the site finders, and path queries step into them.
+	transparentKids = map[*ssa.Function][]*ssa.Function{}
+	transparentSite = map[*ssa.Function]*ssa.Call{}
+	if KnownFuncs != nil {
+		inLib := map[*ssa.Function]bool{}
+		for _, fn := range p.Funcs {
+			inLib[fn] = true
+		}
+		// candidates: unexported / anonymous functions that are not in the frozen list
+		cand := map[*ssa.Function]bool{}
+		for _, fn := range p.Funcs {
+			if KnownFuncs[FuncName(fn)] {
+				continue
+			}
+			if fn.Parent() != nil {
+				if ClosureRole(fn) == "call" {
+					cand[fn] = true
+				}
+				continue
+			}
+			if obj := fn.Object(); obj != nil && !obj.Exported() {
+				cand[fn] = true
+			}
+		}
+		// their static call sites (plain calls only; a use as a value, in go or in defer disqualifies)
+		sites := map[*ssa.Function][]*ssa.Call{}
+		other := map[*ssa.Function]bool{}
+		for _, fn := range p.Funcs {
+			for _, b := range fn.Blocks {
+				for _, in := range b.Instrs {
+					var callee *ssa.Function
+					if cc := CallCommonOf(in); cc != nil && !cc.IsInvoke() {
+						v := cc.Value
+						if mc, isMC := v.(*ssa.MakeClosure); isMC {
+							v = mc.Fn
+						}
+						if f, isF := v.(*ssa.Function); isF {
+							callee = Canon(f)
+						}
+					}
+					for _, op := range in.Operands(nil) {
+						if *op == nil {
+							continue
+						}
+						v := *op
+						if mc, isMC := v.(*ssa.MakeClosure); isMC {
+							v = mc.Fn
+						}
+						if f, isF := v.(*ssa.Function); isF && cand[Canon(f)] {
+							f = Canon(f)
+							if call, isCall := in.(*ssa.Call); isCall && callee == f {
+								if _, isMC := in.(*ssa.MakeClosure); !isMC {
+									sites[f] = append(sites[f], call)
+									continue
+								}
+							}
+							if mc, isMC := in.(*ssa.MakeClosure); isMC && Canon(mc.Fn.(*ssa.Function)) == f {
+								continue // the closure value itself; its use is what counts
+							}
+							other[f] = true
+						}
+					}
+				}
+			}
+		}
+		for fn := range cand {
+			if other[fn] || len(sites[fn]) != 1 || sites[fn][0].Parent() == fn {
+				continue
+			}
+			transparentSite[fn] = sites[fn][0]
+		}
+		// drop cycles (a chain of transparent functions must end in a non-transparent one)
+		for fn := range transparentSite {
+			seenC := map[*ssa.Function]bool{}
+			for f := fn; transparentSite[f] != nil; f = Canon(transparentSite[f].Parent()) {
+				if seenC[f] {
+					delete(transparentSite, fn)
+					break
+				}
+				seenC[f] = true
+			}
+		}
+		var keep []*ssa.Function
+		for _, fn := range p.Funcs {
+			if site := transparentSite[fn]; site != nil {
+				par := Canon(site.Parent())
+				transparentKids[par] = append(transparentKids[par], fn)
+				continue
+			}
+			keep = append(keep, fn)
+		}
+		p.Funcs = keep
+		// a transparent function (and everything nested in it) is named after the nearest non-transparent caller
+		for fn := range transparentSite {
+			anc := Canon(transparentSite[fn].Parent())
+			for transparentSite[anc] != nil {
+				anc = Canon(transparentSite[anc].Parent())
+			}
+			fnNames.Store(fn, FuncName(anc))
+		}
+		// closures nested in a transparent function are renamed along with it
+		for _, fn := range p.Funcs {
+			for a := fn.Parent(); a != nil; a = a.Parent() {
+				if transparentSite[a] != nil {
+					fnNames.Delete(fn)
+					break
+				}
+			}
+		}
+	}
 	sort.Slice(p.Funcs, func(i, j int) bool { return FuncName(p.Funcs[i]) < FuncName(p.Funcs[j]) })
 	for _, fn := range p.Funcs {
 		n := FuncName(fn)
 		if _, dup := p.byName[n]; dup {
-			return nil, fmt.Errorf("load: duplicate function name %s", n)
+			nested := false
+			for a := fn.Parent(); a != nil; a = a.Parent() {
+				if transparentSite[a] != nil {
+					nested = true
+				}
+			}
+			if !nested {
+				return nil, fmt.Errorf("load: duplicate function name %s", n)
+			}
+			for i := 2; ; i++ {
+				if _, dup := p.byName[n+"'"+fmt.Sprint(i)]; !dup {
+					n = n + "'" + fmt.Sprint(i)
+					fnNames.Store(fn, n)
+					break
+				}
+			}
 		}
 		p.byName[n] = fn
 	}
@@ -341,6 +504,9 @@ func (p *Prog) IsLib(fn *ssa.Function) bool {
 	}
 	if fn.Origin() != nil {
 		fn = fn.Origin()
+	}
+	if IsTransparent(fn) {
+		return fn.Blocks != nil
 	}
 	_, ok := p.byName[FuncName(fn)]
 	return ok && fn.Blocks != nil && p.byName[FuncName(fn)] == fn
